@@ -300,3 +300,14 @@ _ROUND9 = {
 }
 for _k, _v in _ROUND9.items():
     PROPS[_k]["rule"] += " Round 9: " + _v
+
+# round 10 (DESIGN.md §8)
+_ROUND10 = {
+    "C01": "task scripts in mode `v-`: the verified piece (stored by another connection in end game) lies under the name of the piece being fetched; a file the task removes is reported, a store of identical bytes is seen by the inode.",
+    "C10": "mode `v-` as for C01.",
+    "C02": "every second free end-to-end geometry has a small file strictly inside a piece (neither starting on its first byte nor reaching its end).",
+    "C09": "every third block request reaches the task in two segments (cut after 1..16 of its 17 bytes).",
+    "C12": "closed-loop runs: Haves for pieces on and behind the end of the torrent (np, np+1, 2^32-1), 16 fixed cases with piece counts 1, 3, 8, 9.",
+}
+for _k, _v in _ROUND10.items():
+    PROPS[_k]["rule"] += " Round 10: " + _v
